@@ -321,10 +321,16 @@ def build_move(m: dict, labels, cache: dict):
                 out = out + p
     elif t == "*":
         out = build_move(m["part"], labels, cache) * m["n"]
-    elif t == "D":
-        out = DisplacementMove(mod_labels(np.array(m.get("labels", labels)), m.get("labelmod")), build_op(m.get("op")), apply_constraints=m.get("apply_constraints", True))
-    elif t == "E":
-        out = ExchangeMove(mod_labels(np.array(m.get("labels", labels)), m.get("labelmod")), build_op(m.get("op")), bias_towards_insert=m.get("bias", 0.5))
+    elif t in ("D", "E"):
+        lab = mod_labels(np.array(m.get("labels", labels)), m.get("labelmod"))
+        if cache.get("share_label_arrays") and not m.get("labelmod") and "labels" not in m:
+            # one and the same array object handed to several moves (labels = np.array(...); ExchangeMove(labels);
+            # DisplacementMove(labels)), as a script that builds its moves from one variable does
+            lab = cache.setdefault("the_shared_label_array", lab)
+        if t == "D":
+            out = DisplacementMove(lab, build_op(m.get("op")), apply_constraints=m.get("apply_constraints", True))
+        else:
+            out = ExchangeMove(lab, build_op(m.get("op")), bias_towards_insert=m.get("bias", 0.5))
     elif t == "C":
         out = CellMove(build_op(m.get("op")), scale_atoms=m.get("scale", True))
     elif t == "P":
@@ -390,6 +396,8 @@ def build(spec: dict, **driver_kwargs):
     cycles = spec.get("cycles", 2)
     kw = dict(seed=seed, **driver_kwargs)
     cache: dict = {}
+    if spec.get("share_label_arrays"):
+        cache["share_label_arrays"] = True
     prebuilt: dict = {}
     if spec.get("ctor_defaults") and d in ("Canonical", "Isobaric", "Isotension", "GrandCanonical"):
         # hand the first eligible plain moves of the table to the driver's constructor (the documented
